@@ -156,6 +156,9 @@ inductive Stmt where
   | update (k : Nat) (d : Int)
   /-- `SELECT v FROM t WHERE k = k` (`execute_and_fetchone` / `execute_and_fetchall`): no effect on the tables -/
   | select (k : Nat)
+  /-- `execute_many` of the upsert statement with `n` argument rows `(k + j % 2, d)`, `j < n`: aiomysql sends ONE multi-row
+  `INSERT … VALUES (…), (…), … ON DUPLICATE KEY UPDATE v = v + VALUES(v)` -/
+  | upsertMany (k : Nat) (d : Int) (n : Nat)
   deriving DecidableEq, Repr
 
 def get (db : DB) (k : Nat) : Option Int := (db.find? fun p => p.1 = k).map (·.2)
@@ -175,6 +178,7 @@ def step (db : DB) : Stmt → Except Err DB
     | some v => .ok (put k (v + d) db)
     | none => .ok db
   | .select _ => .ok db
+  | .upsertMany k d n => .ok ((List.range n).foldl (fun acc j => put (k + j % 2) ((get acc (k + j % 2)).getD 0 + d) acc) db)
 
 end KV
 
